@@ -90,3 +90,31 @@ PROPS["C12"] = dict(
                tlc_expect_error="Invariant RWExclusion is violated", fixed_cfg="spec/l2/MCRwLock_F2fixed.cfg"),
     ],
 )
+
+def tx(name, prog, is_co=False, **kw):
+    return dict(name=name, co=is_co, role="tx", prog=prog, **kw)
+def rx(name, prog, is_co=False, **kw):
+    return dict(name=name, co=is_co, role="rx", prog=prog, **kw)
+
+def chanunit(name, kind, module, cfg, actors, victims=(), n=300, fixed_cfg=None, **kw):
+    tlc = [(module, cfg)] + ([(module, fixed_cfg)] if fixed_cfg else [])
+    return dict(name=name, scenario="chan", tlc=tlc, sim_spec=(module, fixed_cfg or cfg),
+                params=dict(kind=kind, actors=actors, victims=list(victims), workers=8),
+                quick=dict(sim=dict(num=n, depth=300), explore=dict(n=200), dfs=dict(max=300, pb=2)),
+                thorough=dict(sim=dict(num=5000, depth=300), explore=dict(n=3000), dfs=dict(max=5000, pb=3)), **kw)
+
+MPSC = "spec/l2/MCMpscChan.tla"
+C06_UNITS = [
+    chanunit("mpsc_2x2", "mpsc", MPSC, "spec/l2/MCMpscChan.cfg",
+             [rx("rx", ["recv", "recv", "try", "recv"], True), tx("s1", ["send", "send", "drop"], True), tx("s2", ["send", "drop"])]),
+    chanunit("mpsc_timed", "mpsc", MPSC, "spec/l2/MCMpscChan_timed.cfg",
+             [rx("rx", ["trecv", "trecv", "recv"], True, dur=1), tx("s1", ["send", "drop"]), tx("s2", ["clone", "drop", "send", "drop"], True)]),
+]
+C07_UNITS = [
+    chanunit("mpsc_rdrop", "mpsc", MPSC, "spec/l2/MCMpscChan_rdrop.cfg",
+             [rx("rx", ["try", "rdrop"]), tx("s1", ["send", "send", "drop"], True), tx("s2", ["send", "drop"])]),
+    chanunit("mpsc_cancel", "mpsc", MPSC, "spec/l2/MCMpscChan_cancel.cfg",
+             [rx("rx", ["recv", "recv"], True), tx("s1", ["send", "drop"]), tx("s2", ["send", "drop"], True)], victims=["rx"]),
+]
+PROPS["C06"] = dict(assumptions=["queues are linearizable FIFOs (C03); AbsBlocker (C02); timers (C08)"], units=C06_UNITS + C07_UNITS)
+PROPS["C07"] = dict(assumptions=["queues are linearizable FIFOs (C03); AbsBlocker (C02); timers (C08)"], units=C07_UNITS + C06_UNITS)
